@@ -89,9 +89,9 @@ async fn hostile(server: SocketAddr, proxy: bool, stall: &str, n: usize) -> Opti
 fn run_schedule(spec: &Spec) -> (Duration, bool, String, bool) {
     run_local(async {
         let mut adapters = NetAdapters::new();
-        // the hostile client that reaches the configuration phase waits for routing forever
-        let gate = std::sync::Arc::new(tokio::sync::Semaphore::new(0));
-        adapters.gate = Some(gate.clone());
+        // a hostile client that reaches the configuration phase waits for routing forever: the backend never
+        // answers for *its* address (the well-behaved client has another effective address)
+        adapters.blocked_ips = if spec.proxy { (0..spec.hostile).map(|n| format!("198.51.100.{}", 20 + n).parse().unwrap()).collect() } else { vec!["127.0.0.2".parse().unwrap()] };
         let cfg = ListenerCfg { proxy: spec.proxy.then_some((true, true)), limiter: spec.limiter.then_some((3600, 2)), timeout: Duration::from_secs(20), auth_secret: None };
         let running = start_listener(&cfg, adapters).await;
         let mut held = vec![];
@@ -116,8 +116,6 @@ fn run_schedule(spec: &Spec) -> (Duration, bool, String, bool) {
                 c.send_raw(&proxy_v2("203.0.113.77:7777".parse().unwrap(), running.addr)).await.map_err(|e| e.to_string())?;
             }
             if spec.login {
-                // routing of the well-behaved client must complete: open the gate once for it
-                gate.add_permits(1);
                 let mut out = LoginOutcome { packets: vec![], stage: Stage::Connected, error: None };
                 c.login(&LoginParams { wait: BOUND, ..Default::default() }, Stage::Connected, Stage::Transferred, &mut out).await;
                 if out.stage == Stage::Transferred { Ok(()) } else { Err(format!("login stopped at {:?}: {:?}", out.stage, out.error)) }
